@@ -479,7 +479,7 @@ pub fn words64(r: &mut Rng, n: usize) -> Vec<String> {
 
 /// Returns (detection entries incl. condition, extra documents tailored to the shape).
 pub fn gen_special(r: &mut Rng) -> (Vec<(String, Yaml)>, Vec<Yaml>) {
-    let k = r.below(6);
+    let k = r.below(7);
     gen_special_kind(r, k)
 }
 
@@ -599,6 +599,35 @@ pub fn gen_special_kind(r: &mut Rng, kind: usize) -> (Vec<(String, Yaml)>, Vec<Y
                     if r.chance(80) {
                         d.insert(ys(f), ys(*r.pick(&["a", "ab", "b", "x", "xb"])));
                     }
+                }
+                docs.push(Yaml::Mapping(d));
+            }
+            (det, docs)
+        }
+        6 => {
+            // an or-group of bare searches on one field, with and without the str() cast
+            let n = 2 + r.below(3);
+            let rows: Vec<Yaml> = (0..n)
+                .map(|_| match r.below(4) {
+                    0 => m1("str(n)", Yaml::Number((*r.pick(&[1i64, 3])).into())),
+                    1 => m1("str(n)", ys(*r.pick(&["3", "1*", "*5"]))),
+                    2 => m1("n", ys(*r.pick(&["foo", "3", "a*", "i3"]))),
+                    _ => m1("s", ys(*r.pick(&["a*", "x"]))),
+                })
+                .collect();
+            let cond = *r.pick(&["X", "not X", "X or A", "A or X"]);
+            let det = vec![("X".to_string(), Yaml::Sequence(rows)), ("A".to_string(), m1("a", pat(r))), ("condition".to_string(), ys(cond))];
+            let mut docs = vec![];
+            for _ in 0..4 {
+                let mut d = Mapping::new();
+                d.insert(ys("n"), match r.below(5) {
+                    0 => ys(*r.pick(&["3", "1", "foo", "15"])),
+                    1 => Yaml::Number(2.5f64.into()),
+                    2 => Yaml::Bool(true),
+                    _ => Yaml::Number((*r.pick(&[1u64, 3, 15, 2])).into()),
+                });
+                if r.chance(60) {
+                    d.insert(ys("s"), ys(*r.pick(&["a", "x", "b"])));
                 }
                 docs.push(Yaml::Mapping(d));
             }
